@@ -150,8 +150,13 @@ def opPemFile : OpFn := fun _ inp out => do
   let implHash : String := (out.getObjValAs? String "storedHash").toOption.getD "-"
   let modelHash : String := match Pem.readHash text with | some h => "h" ++ bytesToHex h | none => ""
   let hashAgrees := implHash == "-" || implHash == modelHash
+  -- what the model imports from the blocks it read (whole, unmutated files: every block holds a real object)
+  let parts := Pem.importParts mBlocks
+  let partsAgree := raw != "" || cut ≥ 0 ||
+    (artCert == parts.cert.isSome && artKey == parts.key.isSome && artCsr == parts.csr.isSome)
   let modelFail : Option String :=
-    if !hashAgrees then some s!"the model reads the stored hash '{modelHash}' from this text, gopki reads '{implHash}'"
+    if !partsAgree then some "the model's import of the PEM blocks keeps other parts than importPem (certificate, key preferred over request)"
+    else if !hashAgrees then some s!"the model reads the stored hash '{modelHash}' from this text, gopki reads '{implHash}'"
     else if !decodeAgrees then some "the model of pem.Decode reads other blocks from this text than the standard library"
     else if !encodeAgrees then some "the model of pem.Encode writes another text for a block than the standard library"
     else if !fileAgrees then some "the file gopki wrote is not hash line + certificate block + key block as the model writes them"
